@@ -1,17 +1,17 @@
-\* C06 thorough: all corruption flags (the two late ones badRproofRoot, badKernelSize also on blocks carrying a transaction), 2 blocks, 4 deliveries
+\* C13 thorough: two transactions per block (lock heights on each kernel), one further block
 SPECIFICATION MCSpec
 CONSTANTS
   Trunk = 3
-  MaxBlocks = 2
+  MaxBlocks = 1
   Diffs = {1}
   Pool <- Pool3
   PoolVal <- PoolVal3
   Maturity = 3
-  Flags = {"badRoot", "badSums", "badPrevRoot", "badSize", "badKernelRoot", "badTime", "badRproofRoot", "badKernelSize"}
-  MaxDeliveries = 4
+  Flags = {}
+  MaxDeliveries = 3
   HeadersFirst = FALSE
   SimProfile = "mixed"
-  TxShapes = "small"
+  TxShapes = "locks2"
 VIEW View
 INVARIANTS TypeOK HeadValidated HeadMaxWork BodiesValid UnspentIsReplay IndexConsistent NoDupUnspent SpentIdxInv SumsInv MaturityLockInv OrphansRetried OnlyValidRemembered
 PROPERTIES MCHeadMonotone MCRejectLeavesState
